@@ -35,7 +35,13 @@ impl<K: Eq + Hash + Clone> ArcState<K> {
   // Called when the cache is full and a new item needs to be admitted.
   fn replace(&mut self, capacity: u64, key_in_b2: bool) -> Option<(K, u64)> {
     let t1_cost = self.t1.current_total_cost();
-    if t1_cost > 0 && (t1_cost >= self.p || (key_in_b2 && t1_cost == self.p)) {
+    // T1 is also the only source of a victim when T2 is empty, whatever `p`
+    // says, and it may hold only zero-cost keys: without this a non-empty T1
+    // could be skipped and the keys in it were never nominated at all.
+    let t2_empty = self.t2.tail.is_none();
+    if self.t1.tail.is_some()
+      && (t2_empty || (t1_cost > 0 && (t1_cost >= self.p || (key_in_b2 && t1_cost == self.p))))
+    {
       if let Some((key, cost)) = self.t1.pop_back() {
         self.b1.push_front(key.clone(), cost);
         if self.b1.current_total_cost() > capacity {
